@@ -2,6 +2,7 @@ package harness
 
 import (
 	"strings"
+	"sync"
 	"time"
 
 	"verifsim/simnet"
@@ -42,6 +43,13 @@ func genC16(r *simrt.RNG, tier string, variant int) Plan {
 	}
 	if r.Bool(0.5) {
 		p.Family = "faulty"
+		// more reverse-calling forward calls on client A after the fault (on the
+		// re-established connection, where the server's reverse ids start again)
+		p.Clients[0].NoReconnect = false
+		for i := 0; i < 1+r.Intn(3); i++ {
+			p.Ops = append(p.Ops, Op{Kind: "rev", Client: 0, Tok: tok, N: r.Intn(2), Hold: r.Bool(0.3), Phase: 1})
+			tok++
+		}
 		// black holes are excluded: a server without a read timeout cannot notice a
 		// silent peer, so for the server that connection is not "gone"
 		p.Faults = []Fault{{Kind: Pick(r, []string{"fin", "rst"}), Pipe: 0, Dir: Pick(r, []string{"c2s", "s2c"}),
@@ -56,15 +64,63 @@ func runC16(e *Env, p *Plan) {
 		e.Violate("setup", "building the world failed on a healthy network: %v", err)
 		return
 	}
+	faultC := make(chan struct{})
+	var once sync.Once
+	e.N.FaultHook = func(string, int) { once.Do(func() { close(faultC) }) }
 	for _, f := range p.Faults {
 		e.N.PlanCut(f.Pipe, simnet.Cut{Dir: f.Dir, Frame: f.Frame, Pos: f.Pos, Kind: f.Kind})
 	}
+	var lateGates []chan struct{}
 	for _, op := range p.Ops {
-		w.Start(op, nil)
+		op := op
+		if op.Phase == 0 {
+			if len(p.Faults) > 0 && op.Kind == "rev" && op.Client == 0 && op.Tok%2 == 1 {
+				// this call's client-side handler finishes only after the reconnect,
+				// while later reverse calls are in flight on the new connection
+				g := make(chan struct{})
+				lateGates = append(lateGates, g)
+				t := w.Register(op)
+				t.mu.Lock()
+				t.Gate = g
+				t.mu.Unlock()
+				w.Start(op, nil)
+				t.mu.Lock()
+				t.Gate = g
+				t.mu.Unlock()
+				continue
+			}
+			w.Start(op, nil)
+			continue
+		}
+		w.Register(op)
+		e.S.Go("gate-"+itoa(op.Tok), func() {
+			<-faultC
+			// wait until the client is connected again (a call in the window fails fast)
+			for i := 0; i < 40; i++ {
+				simrt.Yield("after-fault")
+			}
+			time.Sleep(300 * time.Millisecond)
+			e.Probe("reverse-call-after-reconnect")
+			w.Exec(op, nil)
+		})
+	}
+	if len(lateGates) > 0 {
+		e.S.Go("late-release", func() {
+			<-faultC
+			for i := 0; i < 80; i++ {
+				simrt.Yield("late-release-delay")
+			}
+			time.Sleep(400 * time.Millisecond)
+			e.Probe("old-reverse-handler-finishes-after-reconnect")
+			for _, g := range lateGates {
+				close(g)
+			}
+		})
 	}
 	if !e.S.Settle(5 * time.Second) {
 		return
 	}
+	once.Do(func() { close(faultC) })
 	e.N.Heal()
 	if !e.S.Settle(H) {
 		return
